@@ -8,6 +8,7 @@ use std::fmt::Write as _;
 use std::panic::{catch_unwind, AssertUnwindSafe};
 
 pub mod gen;
+pub mod snap;
 
 /// splitmix64: the harness's own generator
 #[derive(Clone)]
